@@ -111,6 +111,15 @@ def make_scheduler(kind, seed):
     so = {"num_init_random": 10000, "debug_log": False}
     sink = io.StringIO()
     with contextlib.redirect_stdout(sink), contextlib.redirect_stderr(sink):
+        rc_space = {"x": choice(["a", "b", "c", "d"]), "y": randint(0, 3), "epochs": MAX_T}
+        rc_opts = {"allow_duplicates": True, "debug_log": False,
+                   "restrict_configurations": [{"x": "a", "y": 0}, {"x": "b", "y": 1}, {"x": "c", "y": 2}, {"x": "d", "y": 3}]}
+        if kind[0] == "fifo" and kind[1] == "random_rc_dup":
+            return FIFOScheduler(rc_space, searcher="random", metric="m", mode="min", random_seed=seed, search_options=rc_opts)
+        if kind[0] == "hb" and kind[2] == "random_rc_dup":
+            return HyperbandScheduler(rc_space, searcher="random", type=kind[1], metric="m", mode="min", resource_attr="epoch",
+                                      max_resource_attr="epochs", grace_period=1, reduction_factor=3, brackets=1,
+                                      random_seed=seed, search_options=rc_opts)
         if kind[0] == "fifo":
             if kind[1] == "grid":
                 cs = {"x": choice(["a", "b", "c", "d"]), "y": randint(0, 5), "epochs": MAX_T}
@@ -508,7 +517,7 @@ def staged_sync(kind, seed):
     return dict(problems=problems, stats=stats)
 
 
-def directed_failed_after_report(kind, seed):
+def directed_failed_after_report(kind, seed, nsug=14):
     """A trial reports the best value seen so far and then fails; the following suggestions (model-based phase) must not
     propose its configuration again -- also with allow_duplicates=True."""
     from syne_tune.backend.trial_status import Trial
@@ -519,7 +528,7 @@ def directed_failed_after_report(kind, seed):
     sink = io.StringIO()
     try:
         with contextlib.redirect_stdout(sink):
-            for i in range(14):
+            for i in range(nsug):
                 sug = sch.suggest(i)
                 if sug is None:
                     break
@@ -818,13 +827,16 @@ def _run(ctx, replay):
     elif replay is None:
         for kind in (("hb", "stopping", "bayesopt_dup"), ("hb", "promotion", "bayesopt_dup")):
             dd += [(kind, rng.randrange(10 ** 6)) for _ in range(ctx.n(5, 40))]
+        # random searcher drawing from restrict_configurations (4 configurations) with allow_duplicates=True
+        for kind in (("fifo", "random_rc_dup"), ("hb", "stopping", "random_rc_dup"), ("hb", "promotion", "random_rc_dup")):
+            dd += [(kind, rng.randrange(10 ** 6)) for _ in range(ctx.n(4, 40))]
     for kind, seed in dd:
         case = dict(part="F", kind=list(kind), seed=seed)
-        probs = directed_failed_after_report(kind, seed)
+        probs = directed_failed_after_report(kind, seed, nsug=70 if kind[-1] == "random_rc_dup" else 14)
         ctx.count(case, nontrivial=True)
         ctx.h("F_failed_after_report", "/".join(kind) + (":resuggested" if probs else ":ok"))
         for prob in probs:
-            ctx.violation("property", "scheduler %s (allow_duplicates=True, model-based phase), seed %d: %r" % (
+            ctx.violation("property", "scheduler %s (allow_duplicates=True), seed %d: %r" % (
                 "/".join(kind), seed, prob), case=case, signature=signature_for(kind, prob))
     staged = []
     if replay is not None and replay.get("part") == "S":
